@@ -49,7 +49,7 @@ ASSUMPTIONS = [
     "which simulation does not decide",
     "the 'fresh generator' reference uses the same generator code under test (it is the definition of the input)",
 ]
-PROBES = ["cross_process_reproducibility", "history_with_abandoned_pass", "history_with_probe", "from_random_parallel", "window_with_pole", "size_multiple_of_chunk", "tail_chunk"]
+PROBES = ["explicit_reseed", "explicit_reseed_zero", "cross_process_reproducibility", "history_with_abandoned_pass", "history_with_probe", "from_random_parallel", "window_with_pole", "size_multiple_of_chunk", "tail_chunk"]
 REAL_VS_STUB = dict(
     real="yaw.randoms, RandomReader, Catalog.from_random and the whole creation pipeline, numpy Generator",
     stub="multiprocessing (sim.fakemp) for workers > 1; treecorr RNG/threads for patch_num",
@@ -227,6 +227,25 @@ class Model:
             raise HistoryViolation(dict(property=PROP, failing_rule="gen", outcome="wrong_size"), f"generator({n}) returned {len(chunk)} points")
         _check_output(self.case, chunk, "gen")
 
+    def op_reseed(self, which: int, n: int) -> None:
+        """reseed(seed) on the used generator, then draw: must equal a fresh generator with that seed."""
+        seed = [0, self.case["gen_seed"], 1, 12345][which % 4]
+        self.gen.reseed(seed)
+        got = self.gen(n)
+        fresh = _make_generator(dict(self.case, gen_seed=seed))(n)
+        self.rec.probe("explicit_reseed")
+        if seed == 0:
+            self.rec.probe("explicit_reseed_zero")
+        same = got.dtype == fresh.dtype and all(np.array_equal(got[nm], fresh[nm]) for nm in fresh.dtype.names)
+        # later ops of the history compare against fresh generators of the case seed again
+        self.gen.reseed(self.case["gen_seed"])
+        if not same:
+            raise HistoryViolation(
+                dict(property=PROP, failing_rule="reseed", outcome="not_reproducible"),
+                f"generator.reseed({seed}) followed by a draw of {n} points differs from a fresh generator with seed {seed} "
+                f"(history {self.ops[:-1]})",
+            )
+
     def op_probe(self, size: int, n: int) -> None:
         from yaw.catalog.readers import RandomReader
 
@@ -376,7 +395,9 @@ def draw_op(prng) -> list:
     """One rule application drawn from the harness PRNG (same distributions as the
     Hypothesis machine below)."""
     chunks = [1, 2, 3, 5, 7, 10, 16, 20, 64]
-    rule = prng.choice(["gen", "probe", "pass", "from_random"])
+    rule = prng.choice(["gen", "probe", "pass", "from_random", "from_random", "reseed"])
+    if rule == "reseed":
+        return ["reseed", prng.below(4), prng.randint(1, 30)]
     if rule == "gen":
         return ["gen", prng.below(51)]
     if rule == "probe":
@@ -411,6 +432,10 @@ def _machine_factory(case: dict, root: str, rec: Recorder):
         @rule(n=st.integers(0, 50))
         def gen(self, n):
             self._do(["gen", n])
+
+        @rule(which=st.integers(0, 3), n=st.integers(1, 30))
+        def reseed(self, which, n):
+            self._do(["reseed", which, n])
 
         @rule(size=sizes, n=st.integers(1, 60))
         def probe(self, size, n):
